@@ -35,6 +35,19 @@ func (sm *seatManager) RandomAssignSeats(playerIDs []string) error {
 	sm.mu.Lock()
 	defer sm.mu.Unlock()
 
+	// check duplicate players (in the batch or already seated)
+	occupiedSeatIDs := sm.getOccupiedPlayerSeatIDs()
+	batchPlayerIDs := make(map[string]bool)
+	for _, playerID := range playerIDs {
+		if _, exist := occupiedSeatIDs[playerID]; exist || batchPlayerIDs[playerID] {
+			sm.printState(2, func(tag int) {
+				fmt.Printf("[DEBUG#seatManager#RandomAssignSeats#%d] playerID: %s. Error: %+v\n", tag, playerID, ErrDuplicatePlayers)
+			})
+			return ErrDuplicatePlayers
+		}
+		batchPlayerIDs[playerID] = true
+	}
+
 	seatIDs, err := sm.randomSeatIDs(len(playerIDs))
 	if err != nil {
 		sm.printState(1, func(tag int) {
